@@ -30,10 +30,13 @@ Definition will_wake (p : pc) (i : nat) : bool :=
   | _ => false
   end.
 Definition at_wake_all (p : pc) (i : nat) : bool :=
-  match p with PWakeAll j _ => Nat.eqb j i | PWakeCas j _ cur => Nat.eqb j i && Z.leb 65536 cur | _ => false end.
+  match p with PWakeAll j _ | PWakeCas j _ _ => Nat.eqb j i | _ => false end.
 Definition waiter_bit (s : st) (i : nat) : bool := Z.leb 65536 (wordat s i).
-Definition wake_in_flight (s : st) (i : nat) : bool :=
-  existsb (fun w => will_wake (tpc w) i && (at_wake_all (tpc w) i || waiter_bit s i)) (threads s).
+(* w is certain to issue wake_all on slot i: it is past the waiter-bit test, or the test will succeed *)
+Definition wit (s : st) (i : nat) (w : thread) : bool := will_wake (tpc w) i && (at_wake_all (tpc w) i || waiter_bit s i).
+Definition wake_in_flight (s : st) (i : nat) : bool := existsb (wit s i) (threads s).
+(* a consumer parked on slot i is not lost: nothing was published there yet (and it is registered), or a wake-up is in flight *)
+Definition lw_ok (s : st) (i : nat) : Prop := (waiter_bit s i = true /\ stat s i = INITIAL) \/ wake_in_flight s i = true.
 
 (* memory-order obligations on the regenerated site tables *)
 Definition orders_ok : bool :=
@@ -232,14 +235,14 @@ Proof.
   - intro Hen. apply Hcl, Hend, Hen.
 Qed.
 
-Lemma tinv_stable : forall t s s' t' th, G s -> stable t s s' -> t' <> t -> tinv s t' th -> tinv s' t' th.
+Lemma tinv_stable_gen : forall t s s' t' th, G s -> stable t s s' -> (t' <> t \/ forall i e b, tpc th <> PStore i e b) -> tinv s t' th -> tinv s' t' th.
 Proof.
   intros t s s' t' th HG Hst N [Hc Hp]. split; [eapply cons_gen_stable; eauto|].
   destruct Hst as (He & Hx & Hpub & Hcl & Hv). unfold pc_inv in *. rewrite He.
   destruct (tpc th); cbn [cons_pos] in *; auto.
   - destruct Hp as (A & B & C). repeat split; auto.
   - destruct Hp as (A & C). split; auto. intros j Hj. destruct (C j Hj) as (v & E1 & E2). exists v. split; auto.
-    rewrite (Hv j v _ E1); auto.
+    destruct N as [N|N]; [|exfalso; eapply N; reflexivity]. rewrite (Hv j v _ E1); auto.
   - destruct Hp as (A & C). split; auto. intro E. destruct (C E) as (B1 & B2 & B3). auto.
   - destruct Hp as (A & C). split; auto. intro E. destruct (C E) as (B1 & B2 & B3). auto.
   - destruct Hp as (A & C). split; auto. intro E. destruct (C E) as (B1 & B2 & B3). auto.
@@ -249,6 +252,9 @@ Proof.
   - destruct Hp as (A & C). split; auto. intro E. destruct (C E) as (B1 & B2 & B3). auto.
   - destruct Hp as (A & C). split; auto. intro E. destruct (C E) as (B1 & B2 & B3 & B4). repeat split; auto; apply B4; auto.
 Qed.
+
+Lemma tinv_stable : forall t s s' t' th, G s -> stable t s s' -> t' <> t -> tinv s t' th -> tinv s' t' th.
+Proof. intros. eapply tinv_stable_gen; eauto. Qed.
 
 (* shared parts related by "same status and value everywhere" *)
 Lemma equiv_stable : forall t s s1, nei s1 = nei s -> expected s1 = expected s -> closed_at s1 = closed_at s -> epoch s1 = epoch s ->
@@ -318,6 +324,45 @@ Proof.
   rewrite (nth_error_nth' vals 0%Z) by lia. reflexivity.
 Qed.
 
+
+Lemma tinv_goto_triv : forall s t th p, cons_gen s th ->
+  (match p with PWakeLoad _ _ | PWakeCas _ _ _ | PWakeAll _ _ => True | _ => False end) -> tinv s t (goto th p).
+Proof. intros s t th p Hc Hp. split; [exact Hc|]. unfold pc_inv. cbn [tpc goto]. destruct p; try contradiction; exact I. Qed.
+Lemma tinv_wake_next : forall s t th i e, cons_gen s th -> tinv s t (wake_next th i e).
+Proof.
+  intros s t th i e Hc. unfold wake_next. destruct (Nat.eqb _ _).
+  - apply tinv_idle; [exact Hc | reflexivity].
+  - apply tinv_goto_triv; [exact Hc | exact I].
+Qed.
+Lemma tinv_wake_thread : forall s t th i, tinv s t th -> tinv s t (wake_thread i th).
+Proof.
+  intros s t th i [Hc Hp]. unfold wake_thread. destruct (tpc th) eqn:Hpc; try (split; assumption).
+  destruct (Nat.eqb _ _); [|split; assumption]. split; [exact Hc|]. unfold pc_inv in *. rewrite Hpc in Hp. cbn [tpc goto cons_pos] in *. exact Hp.
+Qed.
+Lemma pstore_other : forall p, (match p with PStore _ _ _ => False | _ => True end) -> forall i e b, p <> PStore i e b.
+Proof. intros p H i e b ->. exact H. Qed.
+
+
+Lemma start_consume_inv : forall s t th k, Inv s -> nth_error (threads s) t = Some th -> tpc th = Idle -> req th = k ->
+  Inv (start_consume s t th k).
+Proof.
+  intros s t th k HI Hth Hpc Hreq. unfold start_consume. cbv zeta. rewrite cons_end_spec.
+  match goal with |- context [upd_thread ?x t _] => set (s1 := x) end.
+  assert (Hgoal : forall th1, (th1 = goto th (CHand (cursor th) 0 false (cursor th + k)) /\ cursor th = cursor th + k \/
+                               th1 = goto th (CClosed (cursor th) (cursor th + k) (cursor th)) /\ cursor th <> cursor th + k) ->
+                  Inv (upd_thread s1 t th1)).
+  { intros th1 Hth1 M. change (misuse s || (Nat.eqb k 0 || negb (Nat.eqb (cepoch th) (epoch s))) = false) in M.
+    apply orb_false_elim in M as [M Mk]. apply orb_false_elim in Mk as [Mk Me]. apply Nat.eqb_neq in Mk.
+    destruct (HI M) as [HG HT]. destruct (HT t th Hth) as [Hc Hp].
+    assert (Hst : stable t s s1) by (unfold stable; repeat split; auto).
+    refine (finish_case s s1 t th _ HG HT Hth eq_refl Hst HG _).
+    destruct Hth1 as [[-> E]|[-> E]]; [lia|].
+    apply (tinv_goto_cons s1 t th (CClosed (cursor th) (cursor th + k) (cursor th)) (cursor th) (cursor th + k) (cursor th) Hc eq_refl I).
+    - rewrite Hreq. reflexivity.
+    - intro Ee. destruct Hc as [_ Hc]. destruct (Hc Ee) as (_ & Hpub & _). repeat split; auto; lia. }
+  destruct (Nat.eqb_spec (cursor th) (cursor th + k)); apply Hgoal; auto.
+Qed.
+
 Ltac open_case s HI Hown Hpc M HG HT Hc Hp :=
   intro M; change (misuse s = false) in M; destruct (HI M) as [HG HT]; destruct (Hown M) as [Hc Hp];
   unfold pc_inv in Hp; rewrite Hpc in Hp; cbn [cons_pos] in Hp.
@@ -327,30 +372,196 @@ Proof.
   intros s t s' HI Hs. unfold step in Hs. destruct (nth_error (threads s) t) as [th|] eqn:Hth; [|discriminate].
   assert (Hown : misuse s = false -> tinv s t th) by (intro M; destruct (HI M) as [_ HT]; exact (HT t th Hth)).
   unfold step_thread in Hs. destruct (tpc th) eqn:Hpc.
-  - (* Idle *) admit.
-  - (* PFill *) admit.
-  - (* PStore *) admit.
-  - (* PWakeLoad *) admit.
-  - (* PWakeCas *) admit.
-  - (* PWakeAll *) admit.
-  - (* XStore *) admit.
+  - (* Idle *)
+    destruct (cur_op th) as [o|] eqn:Hop; [|discriminate]. destruct o.
+    + (* OPub *)
+      cbv zeta in Hs. rewrite pub_end_spec in Hs.
+      match type of Hs with context [upd_thread ?x t _] => set (s1 := x) in Hs end.
+      assert (Hgoal : forall th1, (th1 = finish_op th RDone \/
+                                   th1 = goto th (PFill (nei s) (nei s + length vals) vals) /\ nei s <> nei s + length vals) ->
+                      Inv (upd_thread s1 t th1)).
+      { intros th1 Hth1 M. change (misuse s || match closed_at s with Some _ => true | None => false end = false) in M.
+        apply orb_false_elim in M as [M Mc]. destruct (HI M) as [HG HT]. destruct (Hown M) as [Hc Hp].
+        pose proof HG as (G1 & G2 & G3 & G4).
+        assert (Hcl : closed_at s = None) by (destruct (closed_at s); [discriminate|reflexivity]).
+        assert (Hst : stable t s s1).
+        { unfold stable. repeat split; auto. intros j x Hj.
+          change (expected s1) with (expected s ++ map (fun v => (v, (t, opi th))) vals).
+          rewrite nth_error_app1; [exact Hj|]. apply nth_error_Some. rewrite Hj. discriminate. }
+        assert (HG1 : G s1).
+        { unfold G. change (nei s1) with (nei s + length vals). change (closed_at s1) with (closed_at s).
+          split; [change (expected s1) with (expected s ++ map (fun v => (v, (t, opi th))) vals); rewrite app_length, map_length, G1; reflexivity|].
+          split; [|split].
+          - intros j H. change (stat s j = PUBLISHED) in H. destruct (G2 j H) as [A B]. split; [lia|].
+            change (valat s1 j) with (valat s j). rewrite B. symmetry. apply (exp_val_stable t s s1 j HG Hst H).
+          - intros c Hc'. rewrite Hcl in Hc'. discriminate.
+          - intros j Hj. apply G4. exact Hj. }
+        refine (finish_case s s1 t th _ HG HT Hth eq_refl Hst HG1 _).
+        destruct Hth1 as [->|[-> Ne]].
+        - apply tinv_idle; [exact (cons_gen_stable t s _ th HG Hst Hc) | reflexivity].
+        - split; [exact (cons_gen_stable t s _ th HG Hst Hc)|]. unfold pc_inv. cbn [tpc goto opi]. split; [lia|]. split; [reflexivity|].
+          intros j Hj. change (expected s1) with (expected s ++ map (fun v => (v, (t, opi th))) vals).
+          replace (j - nei s) with (j - length (expected s)) by (rewrite G1; reflexivity). apply nth_error_app_map. rewrite G1. lia. }
+      destruct (Nat.eqb_spec (nei s) (nei s + length vals)); injection Hs as <-; apply Hgoal; auto.
+    + (* OConsume *)
+      injection Hs as <-. apply start_consume_inv; auto. unfold req. rewrite Hop. reflexivity.
+    + (* OLoop *)
+      injection Hs as <-. apply start_consume_inv; auto. unfold req. rewrite Hop. reflexivity.
+    + (* OClose *)
+      cbv zeta in Hs. injection Hs as <-. match goal with |- Inv (upd_thread ?x t _) => set (s1 := x) end.
+      open_case s HI Hown Hpc M HG HT Hc Hp. pose proof HG as (G1 & G2 & G3 & G4).
+      assert (Hst : stable t s s1).
+      { unfold stable. repeat split; auto. intros c Hc'.
+        change (closed_at s1) with (match closed_at s with Some c => Some c | None => Some (nei s) end). rewrite Hc'. reflexivity. }
+      assert (HG1 : G s1).
+      { unfold G. change (nei s1) with (nei s). change (expected s1) with (expected s).
+        change (closed_at s1) with (match closed_at s with Some c => Some c | None => Some (nei s) end).
+        split; [exact G1|]. split; [exact G2|]. split.
+        - intros c Hc'. destruct (closed_at s) eqn:E; injection Hc' as <-; [apply G3; reflexivity | reflexivity].
+        - intros j Hj. change (stat s j = CLOSED) in Hj. rewrite (G4 j Hj). reflexivity. }
+      refine (finish_case s s1 t th _ HG HT Hth eq_refl Hst HG1 _).
+      split; [exact (cons_gen_stable t s _ th HG Hst Hc)|]. unfold pc_inv. cbn [tpc goto].
+      change (closed_at s1) with (match closed_at s with Some c => Some c | None => Some (nei s) end).
+      destruct (closed_at s) eqn:E; [f_equal; apply G3; reflexivity | reflexivity].
+    + (* OClear *)
+      cbv zeta in Hs. injection Hs as <-. match goal with |- Inv (upd_thread ?x t _) => set (s1 := x) end.
+      intro M. change (misuse s || negb (others_idle t (threads s)) = false) in M. apply orb_false_elim in M as [M Mo].
+      apply negb_false_iff in Mo. destruct (HI M) as [HG HT]. destruct (Hown M) as [Hc Hp].
+      assert (Hs1 : forall j, stat s1 j = INITIAL).
+      { intro j. unfold stat, wordat. change (slots s1) with (map reset_slot (slots s)). rewrite get_map_reset.
+        destruct (Nat.ltb _ _); reflexivity. }
+      destruct consts_distinct as (D1 & D2 & D3 & _).
+      split.
+      * unfold G. change (expected s1) with (@nil (Z * (nat * nat))). change (nei s1) with (Z.to_nat clear_index).
+        change (closed_at s1) with (@None nat). split; [reflexivity|]. split; [|split].
+        -- intros j H. change (stat s1 j = PUBLISHED) in H. rewrite Hs1 in H. exfalso. apply D1. symmetry. exact H.
+        -- discriminate.
+        -- intros j H. change (stat s1 j = CLOSED) in H. rewrite Hs1 in H. exfalso. apply D2. symmetry. exact H.
+      * intros t' th' Hn. cbn [threads upd_thread set_threads] in Hn. change (threads s1) with (threads s) in Hn.
+        apply nth_error_set_nth_inv in Hn as [[-> ->]|[N Hn]].
+        -- apply tinv_idle; [|reflexivity]. destruct Hc as [Hle _]. split; [change (cepoch th <= S (epoch s)); lia|].
+           intro E. change (cepoch th = S (epoch s)) in E. lia.
+        -- pose proof (others_idle_spec _ _ _ _ Mo N Hn) as Hidle. destruct (HT t' th' Hn) as [[Hle _] _].
+           apply tinv_idle; [|exact Hidle]. split; [change (cepoch th' <= S (epoch s)); lia|].
+           intro E. change (cepoch th' = S (epoch s)) in E. lia.
+    + (* OSub *)
+      injection Hs as <-. open_case s HI Hown Hpc M HG HT Hc Hp.
+      refine (finish_case s s t th _ HG HT Hth eq_refl (stable_refl _ _) HG _).
+      apply tinv_idle; [|reflexivity]. split; [cbn [cepoch]; lia|]. intros _. cbn [received cursor ended seq map].
+      repeat split; [intros j Hj; lia | discriminate].
+    + (* OBarrier *)
+      destruct (barrier_open s th); [|discriminate]. injection Hs as <-. open_case s HI Hown Hpc M HG HT Hc Hp.
+      refine (finish_case s s t th _ HG HT Hth eq_refl (stable_refl _ _) HG _).
+      apply tinv_idle; [exact Hc | reflexivity].
+  - (* PFill *)
+    injection Hs as <-. open_case s HI Hown Hpc M HG HT Hc Hp. destruct Hp as (Hbe & Hlen & Hown').
+    pose proof HG as (G1 & G2 & G3 & G4).
+    set (s1 := set_slots s (fill b vals (slots s))).
+    assert (Hs1 : forall j, stat s1 j = stat s j) by (intro j; unfold stat, wordat, s1; cbn [slots set_slots]; rewrite word_get_fill; reflexivity).
+    assert (Hv1 : forall j, valat s1 j = if Nat.leb b j && Nat.ltb j e then nth (j - b) vals 0%Z else valat s j).
+    { intro j. unfold valat, s1. cbn [slots set_slots]. rewrite value_get_fill, <- Hlen. reflexivity. }
+    assert (Hin : forall j, Nat.leb b j && Nat.ltb j e = true -> b <= j < e).
+    { intros j Hj. apply andb_true_iff in Hj as [A B]. apply Nat.leb_le in A. apply Nat.ltb_lt in B. lia. }
+    assert (Hst : stable t s s1).
+    { unfold stable. repeat split; auto.
+      - intros j Hj. rewrite Hs1. exact Hj.
+      - intros j v o Hj No. rewrite Hv1. destruct (Nat.leb b j && Nat.ltb j e) eqn:Eb; [|reflexivity].
+        rewrite (Hown' j (Hin j Eb)) in Hj. injection Hj as _ <-. exfalso. apply No. reflexivity. }
+    assert (HG1 : G s1).
+    { unfold G. change (expected s1) with (expected s). change (nei s1) with (nei s). change (closed_at s1) with (closed_at s).
+      split; [exact G1|]. split; [|split; [exact G3|]].
+      - intros j H. rewrite Hs1 in H. destruct (G2 j H) as [A B]. split; [exact A|]. unfold exp_val, items. change (expected s1) with (expected s).
+        fold (items s). fold (exp_val s j). rewrite Hv1. destruct (Nat.leb b j && Nat.ltb j e) eqn:Eb; [|exact B].
+        rewrite (exp_val_nth_error _ _ _ (Hown' j (Hin j Eb))). reflexivity.
+      - intros j Hj. rewrite Hs1 in Hj. apply G4; exact Hj. }
+    refine (finish_case s s1 t th _ HG HT Hth eq_refl Hst HG1 _).
+    split; [exact (cons_gen_stable t s _ th HG Hst Hc)|]. unfold pc_inv. cbn [tpc goto opi]. split; [lia|].
+    intros j Hj. exists (nth (j - b) vals 0%Z). split; [apply Hown'; exact Hj|]. rewrite Hv1.
+    destruct (Nat.leb_spec b j); [|lia]. destruct (Nat.ltb_spec j e); [|lia]. reflexivity.
+  - (* PStore *)
+    cbv zeta in Hs.
+    set (s1 := set_slots s (set_word i (with_status (wordat s i) published_status) (slots s))) in Hs.
+    assert (Hgoal : forall th1, (th1 = goto th (PWakeLoad b e) \/ th1 = goto th (PStore (S i) e b) /\ S i <> e) -> Inv (upd_thread s1 t th1)).
+    { intros th1 Hth1. open_case s HI Hown Hpc M HG HT Hc Hp. destruct Hp as (Hbe & Hown').
+      pose proof HG as (G1 & G2 & G3 & G4). destruct consts_distinct as (D1 & D2 & D3 & R1 & R2 & R3).
+      assert (Hs1 : forall j, stat s1 j = if Nat.eqb j i then PUBLISHED else stat s j).
+      { intro j. unfold s1. rewrite stat_set_word, status_of_with_status by (rewrite published_status_spec; exact R2). reflexivity. }
+      assert (Hv1 : forall j, valat s1 j = valat s j) by (intro j; apply valat_set_word).
+      destruct (Hown' i Hbe) as (v & Ei & Vi).
+      assert (Hst : stable t s s1).
+      { unfold stable. repeat split; auto. intros j Hj. rewrite Hs1. destruct (Nat.eqb j i); [reflexivity | exact Hj]. }
+      assert (HG1 : G s1).
+      { unfold G. change (expected s1) with (expected s). change (nei s1) with (nei s). change (closed_at s1) with (closed_at s).
+        split; [exact G1|]. split; [|split; [exact G3|]].
+        - intros j H. rewrite Hv1. unfold exp_val, items. change (expected s1) with (expected s). fold (items s). fold (exp_val s j).
+          destruct (Nat.eq_dec j i) as [E|E].
+          + subst j. split; [rewrite <- G1; apply nth_error_Some; rewrite Ei; discriminate|].
+            rewrite (exp_val_nth_error _ _ _ Ei). exact Vi.
+          + rewrite Hs1 in H. apply Nat.eqb_neq in E. rewrite E in H. apply G2; exact H.
+        - intros j Hj. rewrite Hs1 in Hj. destruct (Nat.eqb j i); [congruence | apply G4; exact Hj]. }
+      refine (finish_case s s1 t th _ HG HT Hth eq_refl Hst HG1 _).
+      destruct Hth1 as [->|[-> Ne]].
+      - apply tinv_goto_triv; [exact (cons_gen_stable t s _ th HG Hst Hc) | exact I].
+      - split; [exact (cons_gen_stable t s _ th HG Hst Hc)|]. unfold pc_inv. cbn [tpc goto opi]. split; [lia|].
+        intros j Hj. destruct (Hown' j Hj) as (v' & A & B). exists v'. split; [exact A | rewrite Hv1; exact B]. }
+    destruct (Nat.eqb_spec (S i) e); injection Hs as <-; apply Hgoal; auto.
+  - (* PWakeLoad *)
+    cbv zeta in Hs. destruct (wake_fast _); injection Hs as <-; open_case s HI Hown Hpc M HG HT Hc Hp;
+      refine (finish_case s s t th _ HG HT Hth eq_refl (stable_refl _ _) HG _).
+    + apply tinv_wake_next; exact Hc.
+    + apply tinv_goto_triv; [exact Hc | exact I].
+  - (* PWakeCas *)
+    cbv zeta in Hs. injection Hs as <-. destruct (Z.eqb_spec (wordat s i) cur) as [Ew|Ew]; open_case s HI Hown Hpc M HG HT Hc Hp.
+    + destruct (equiv_stable t s (set_slots s (set_word i (status_of cur) (slots s))) eq_refl eq_refl eq_refl eq_refl) as [Hst HGG].
+      { intro j. rewrite stat_set_word. destruct (Nat.eqb_spec j i) as [->|]; [|reflexivity]. rewrite status_of_idem. unfold stat. rewrite Ew. reflexivity. }
+      { intro j. apply valat_set_word. }
+      refine (finish_case s (set_slots s (set_word i (status_of cur) (slots s))) t th _ HG HT Hth eq_refl Hst (HGG HG) _).
+      apply tinv_goto_triv; [exact (cons_gen_stable t s _ th HG Hst Hc) | exact I].
+    + refine (finish_case s s t th _ HG HT Hth eq_refl (stable_refl _ _) HG _). apply tinv_goto_triv; [exact Hc | exact I].
+  - (* PWakeAll *)
+    injection Hs as <-. open_case s HI Hown Hpc M HG HT Hc Hp. split; [exact HG|].
+    intros t' th' Hn. change (tinv s t' th'). cbn [threads upd_thread set_threads] in Hn.
+    apply nth_error_set_nth_inv in Hn as [[-> ->]|[N Hn]]; [apply tinv_wake_next; exact Hc|].
+    rewrite nth_error_map in Hn. destruct (nth_error (threads s) t') as [th0|] eqn:E0; [|discriminate].
+    injection Hn as <-. apply tinv_wake_thread. apply HT. exact E0.
+  - (* XStore *)
+    cbv zeta in Hs. injection Hs as <-. open_case s HI Hown Hpc M HG HT Hc Hp.
+    pose proof HG as (G1 & G2 & G3 & G4). destruct consts_distinct as (D1 & D2 & D3 & R1 & R2 & R3).
+    assert (Hnp : stat s i <> PUBLISHED).
+    { intro Hp'. destruct (G2 i Hp') as [Hlt _]. rewrite (G3 i Hp) in Hlt. lia. }
+    set (s1 := set_slots s (set_word i (with_status (wordat s i) closed_status) (slots s))).
+    assert (Hs1 : forall j, stat s1 j = if Nat.eqb j i then CLOSED else stat s j).
+    { intro j. unfold s1. rewrite stat_set_word. rewrite status_of_with_status by (rewrite closed_status_spec; exact R3). reflexivity. }
+    assert (Hv1 : forall j, valat s1 j = valat s j) by (intro j; apply valat_set_word).
+    assert (Hst : stable t s s1).
+    { unfold stable. repeat split; auto. intros j Hj. rewrite Hs1. destruct (Nat.eqb_spec j i) as [->|]; [contradiction|exact Hj]. }
+    assert (HG1 : G s1).
+    { unfold G. change (expected s1) with (expected s). change (nei s1) with (nei s). change (closed_at s1) with (closed_at s).
+      split; [exact G1|]. split; [|split; [exact G3|]].
+      - intros j H. rewrite Hs1 in H. destruct (Nat.eqb j i); [congruence|]. rewrite Hv1. unfold exp_val, items.
+        change (expected s1) with (expected s). apply G2; exact H.
+      - intros j Hj. destruct (Nat.eq_dec j i) as [E|E]; [subst j; exact Hp|]. rewrite Hs1 in Hj. apply Nat.eqb_neq in E. rewrite E in Hj. apply G4; exact Hj. }
+    refine (finish_case s s1 t th _ HG HT Hth eq_refl Hst HG1 _).
+    apply tinv_goto_triv; [exact (cons_gen_stable t s _ th HG Hst Hc) | exact I].
   - (* CClosed *)
-    cbv zeta in Hs. destruct (Z.eqb_spec (status_of (wordat s i)) closed_test) as [Ec|Ec]; injection Hs as <-;
+    cbv zeta in Hs. remember (i - b) as n eqn:En in Hs.
+    destruct (Z.eqb_spec (status_of (wordat s i)) closed_test) as [Ec|Ec]; injection Hs as <-;
       open_case s HI Hown Hpc M HG HT Hc Hp; destruct Hp as [He Hp];
       refine (finish_case s s t th _ HG HT Hth eq_refl (stable_refl _ _) HG _).
     + split; [exact Hc|]. unfold pc_inv. cbn [tpc goto]. split; [exact He|]. intro E. destruct (Hp E) as (B1 & B2 & B3).
-      replace (b + (i - b)) with i by lia. repeat split; auto; try discriminate.
+      replace (b + n) with i by lia. repeat split; auto; try discriminate.
       intros _. destruct HG as (_ & _ & _ & G4). apply G4. exact Ec.
     + eapply tinv_goto_cons; eauto; reflexivity.
   - (* CPub *)
-    cbv zeta in Hs. destruct (Z.eqb_spec (status_of (wordat s i)) published_test) as [Ec|Ec];
+    cbv zeta in Hs. remember (S i - b) as n eqn:En in Hs.
+    destruct (Z.eqb_spec (status_of (wordat s i)) published_test) as [Ec|Ec];
       [destruct (Nat.eqb_spec (S i) e) as [Ee|Ee]|]; injection Hs as <-;
       open_case s HI Hown Hpc M HG HT Hc Hp; destruct Hp as [He Hp];
       refine (finish_case s s t th _ HG HT Hth eq_refl (stable_refl _ _) HG _).
     + split; [exact Hc|]. unfold pc_inv. cbn [tpc goto]. split; [exact He|]. intro E. destruct (Hp E) as (B1 & B2 & B3).
-      replace (b + (S i - b)) with (S i) by lia. repeat split; auto; try discriminate; try lia.
+      replace (b + n) with (S i) by lia. repeat split; auto; try discriminate; try lia.
       intros j Hj. destruct (Nat.eq_dec j i) as [->|]; [exact Ec | apply B3; lia].
-    + eapply tinv_goto_cons; eauto; try reflexivity. intro E. destruct (Hp E) as (B1 & B2 & B3). repeat split; auto; try lia.
+    + apply (tinv_goto_cons s t th (CClosed (S i) e b) (S i) e b Hc eq_refl I He). intro E. destruct (Hp E) as (B1 & B2 & B3). repeat split; auto; try lia.
       intros j Hj. destruct (Nat.eq_dec j i) as [->|]; [exact Ec | apply B3; lia].
     + eapply tinv_goto_cons; eauto; reflexivity.
   - (* CReady *)
@@ -359,7 +570,16 @@ Proof.
       refine (finish_case s s t th _ HG HT Hth eq_refl (stable_refl _ _) HG _).
     + eapply tinv_goto_cons; eauto; reflexivity.
     + apply tinv_goto_slow; auto.
-  - (* CCas *) admit.
+  - (* CCas *)
+    destruct (Z.eqb_spec (wordat s i) cur) as [Ew|Ew]; injection Hs as <-; open_case s HI Hown Hpc M HG HT Hc Hp; destruct Hp as [He Hp].
+    + destruct (equiv_stable t s (set_slots s (set_word i (wait_word cur) (slots s))) eq_refl eq_refl eq_refl eq_refl) as [Hst HGG].
+      { intro j. rewrite stat_set_word. destruct (Nat.eqb_spec j i) as [->|]; [|reflexivity]. rewrite status_of_wait_word. unfold stat. rewrite Ew. reflexivity. }
+      { intro j. apply valat_set_word. }
+      refine (finish_case s (set_slots s (set_word i (wait_word cur) (slots s))) t th _ HG HT Hth eq_refl Hst (HGG HG) _).
+      apply (tinv_stable_gen t s _ t _ HG Hst). { right. intros; discriminate. }
+      apply (tinv_goto_cons s t th (CWait i e b (wait_word cur)) i e b Hc eq_refl I He Hp).
+    + refine (finish_case s s t th _ HG HT Hth eq_refl (stable_refl _ _) HG _).
+      apply (tinv_goto_cons s t th (CReload i e b) i e b Hc eq_refl I He Hp).
   - (* CWait *)
     destruct (Z.eqb _ _); injection Hs as <-;
       open_case s HI Hown Hpc M HG HT Hc Hp; destruct Hp as [He Hp];
@@ -368,5 +588,526 @@ Proof.
   - (* CReload *)
     injection Hs as <-. open_case s HI Hown Hpc M HG HT Hc Hp; destruct Hp as [He Hp].
     refine (finish_case s s t th _ HG HT Hth eq_refl (stable_refl _ _) HG _). apply tinv_goto_slow; auto.
-  - (* CHand *) admit.
-Admitted.
+  - (* CHand *)
+    cbv zeta in Hs. injection Hs as <-. open_case s HI Hown Hpc M HG HT Hc Hp; destruct Hp as [He Hp].
+    refine (finish_case s s t th _ HG HT Hth eq_refl (stable_refl _ _) HG _).
+    apply tinv_idle; [|reflexivity].
+    destruct Hc as [Hle Hc]. split; [exact Hle|]. intro E. change (cepoch th = epoch s) in E.
+    destruct (Hc E) as (Hr & Hpub & Hend). destruct (Hp E) as (B1 & B2 & B3 & B4).
+    pose proof HG as (G1 & G2 & G3 & G4).
+    unfold hand_out. cbv zeta. cbn [received cursor ended].
+    repeat split.
+    + rewrite seq_app, map_app, Hr, <- B1. cbn [Nat.add]. f_equal. apply map_ext_in. intros j Hj. apply in_seq in Hj.
+      change (valat s j = exp_val s j). apply G2. apply B2. lia.
+    + exact B2.
+    + intro Hen. apply orb_true_iff in Hen as [Hen|Hen].
+      * pose proof (Hend Hen) as Hcl. rewrite <- B1 in Hcl. destruct n as [|n]; [replace (b + 0) with b by lia; exact Hcl|].
+        exfalso. assert (Hb : b < b + S n) by lia. destruct (G2 b (B2 b Hb)) as [Hlt _]. rewrite (G3 _ Hcl) in Hlt. lia.
+      * apply Nat.eqb_eq in Hen. subst n. destruct sawc; [apply B3; reflexivity|]. destruct (B4 eq_refl). lia.
+Qed.
+
+Lemma inv_init : forall progs, Inv (init progs).
+Proof.
+  intros progs _. destruct consts_distinct as (D1 & D2 & D3 & _).
+  assert (Hs : forall j, stat (init progs) j = INITIAL).
+  { intro j. unfold stat, wordat, init. cbn [slots]. rewrite get_nil. reflexivity. }
+  split.
+  - unfold G. repeat split; try reflexivity; try discriminate.
+    + rewrite Hs in H. exfalso. apply D1. symmetry. exact H.
+    + rewrite Hs in H. exfalso. apply D1. symmetry. exact H.
+    + intros j H. rewrite Hs in H. exfalso. apply D2. symmetry. exact H.
+  - intros t th Hn. cbn [threads init] in Hn. rewrite nth_error_map in Hn. destruct (nth_error progs t); [|discriminate].
+    injection Hn as <-. apply tinv_idle; [|reflexivity]. split; [cbn; lia|]. intros _. cbn [received cursor ended mk_thread seq map].
+    repeat split; [intros j Hj; lia | discriminate].
+Qed.
+
+Lemma tt_inv : forall progs s, Reach progs s -> Inv s.
+Proof. intros progs s H. eapply inv_reachable; [apply inv_init | apply step_inv | exact H]. Qed.
+
+Lemma in_nth_error : forall A (l : list A) x, In x l -> exists t, nth_error l t = Some x.
+Proof. intros. apply In_nth_error. assumption. Qed.
+
+(* ---- each item exactly once, in publication-index order, with the value the publisher passed ---- *)
+Lemma tt_each_once_in_order : forall progs s th, Reach progs s -> misuse s = false -> In th (threads s) ->
+  cepoch th = epoch s -> received th = firstn (cursor th) (items s) /\ cursor th <= length (items s).
+Proof.
+  intros progs s th HR M Hin E. destruct (tt_inv _ _ HR M) as [HG HT]. destruct (in_nth_error _ _ _ Hin) as [t Ht].
+  destruct (HT t th Ht) as [[_ Hc] _]. destruct (Hc E) as (Hr & Hpub & _). destruct HG as (G1 & G2 & _).
+  assert (Hle : cursor th <= length (items s)).
+  { unfold items. rewrite map_length, G1. destruct (cursor th) as [|c] eqn:Ec; [lia|].
+    assert (Hc' : c < S c) by lia. destruct (G2 c (Hpub c Hc')). lia. }
+  split; [|exact Hle]. rewrite Hr. unfold exp_val. apply nth_map_seq_firstn. exact Hle.
+Qed.
+
+Lemma tt_published_slot_holds_item : forall progs s j, Reach progs s -> misuse s = false ->
+  stat s j = PUBLISHED -> j < nei s /\ nth_error (items s) j = Some (valat s j).
+Proof.
+  intros progs s j HR M Hp. destruct (tt_inv _ _ HR M) as [(G1 & G2 & _) _]. destruct (G2 j Hp) as [A B]. split; [exact A|].
+  rewrite B. unfold exp_val. apply nth_error_nth'. unfold items. rewrite map_length, G1. exact A.
+Qed.
+
+(* ---- the end marker only after everything was delivered ---- *)
+Lemma tt_end_after_all : forall progs s th, Reach progs s -> misuse s = false -> In th (threads s) ->
+  cepoch th = epoch s -> ended th = true ->
+  closed_at s = Some (cursor th) /\ cursor th = nei s /\ received th = items s.
+Proof.
+  intros progs s th HR M Hin E Hen. destruct (tt_each_once_in_order _ _ _ HR M Hin E) as [Hr Hle].
+  destruct (tt_inv _ _ HR M) as [HG HT]. destruct (in_nth_error _ _ _ Hin) as [t Ht].
+  destruct (HT t th Ht) as [[_ Hc] _]. destruct (Hc E) as (_ & _ & Hend). destruct HG as (G1 & _ & G3 & _).
+  pose proof (Hend Hen) as Hcl. pose proof (G3 _ Hcl) as Hn. repeat split; auto.
+  rewrite Hr, Hn. apply firstn_all2. unfold items. rewrite map_length, G1. lia.
+Qed.
+
+(* ---- consume(k) hands out fewer than k items only at the CLOSED slot (it blocks otherwise) ---- *)
+Lemma tt_short_only_if_closed : forall progs s th b n sawc e, Reach progs s -> misuse s = false -> In th (threads s) ->
+  cepoch th = epoch s -> tpc th = CHand b n sawc e ->
+  e = b + req th /\ b = cursor th /\ (n < req th -> closed_at s = Some (b + n) /\ b + n = nei s).
+Proof.
+  intros progs s th b n sawc e HR M Hin E Hpc. destruct (tt_inv _ _ HR M) as [HG HT]. destruct (in_nth_error _ _ _ Hin) as [t Ht].
+  destruct (HT t th Ht) as [_ Hp]. unfold pc_inv in Hp. rewrite Hpc in Hp. destruct Hp as [He Hp].
+  destruct (Hp E) as (B1 & B2 & B3 & B4). destruct HG as (_ & _ & G3 & _). repeat split; auto.
+  - destruct sawc; [apply B3; reflexivity | destruct (B4 eq_refl); lia].
+  - destruct sawc; [apply G3; apply B3; reflexivity | destruct (B4 eq_refl); lia].
+Qed.
+
+(* a consumer walking at slot i has seen PUBLISHED on every slot before it: it never skips an unpublished slot *)
+Lemma tt_consumer_behind_published : forall progs s th i e b, Reach progs s -> misuse s = false -> In th (threads s) ->
+  cepoch th = epoch s -> cons_pos (tpc th) = Some (i, e, b) ->
+  b = cursor th /\ b <= i < e /\ e = b + req th /\ forall j, j < i -> stat s j = PUBLISHED.
+Proof.
+  intros progs s th i e b HR M Hin E Hpos. destruct (tt_inv _ _ HR M) as [HG HT]. destruct (in_nth_error _ _ _ Hin) as [t Ht].
+  destruct (HT t th Ht) as [_ Hp]. unfold pc_inv in Hp.
+  destruct (tpc th); cbn [cons_pos] in *; try discriminate; injection Hpos as -> -> ->; destruct Hp as [He Hp];
+    destruct (Hp E) as (B1 & B2 & B3); repeat split; auto; lia.
+Qed.
+
+(* ---- concurrent publishers never share a slot ---- *)
+Lemma pub_range_owner : forall s t th b e, tinv s t th -> pub_range (tpc th) = Some (b, e) ->
+  b < e /\ forall j, b <= j < e -> exists v o, nth_error (expected s) j = Some (v, (t, o)).
+Proof.
+  intros s t th b e [_ Hp] Hr. unfold pc_inv in Hp. destruct (tpc th); cbn [pub_range] in Hr; try discriminate; injection Hr as -> ->.
+  - destruct Hp as (A & B & C). split; [exact A|]. intros j Hj. eauto.
+  - destruct Hp as (A & C). split; [lia|]. intros j Hj. destruct (C j Hj) as (v & E1 & _). eauto.
+Qed.
+
+Lemma tt_publishers_disjoint : forall progs s t1 t2 th1 th2 b1 e1 b2 e2, Reach progs s -> misuse s = false ->
+  nth_error (threads s) t1 = Some th1 -> nth_error (threads s) t2 = Some th2 -> t1 <> t2 ->
+  pub_range (tpc th1) = Some (b1, e1) -> pub_range (tpc th2) = Some (b2, e2) -> e1 <= b2 \/ e2 <= b1.
+Proof.
+  intros progs s t1 t2 th1 th2 b1 e1 b2 e2 HR M H1 H2 N R1 R2. destruct (tt_inv _ _ HR M) as [_ HT].
+  destruct (pub_range_owner _ _ _ _ _ (HT _ _ H1) R1) as [L1 O1]. destruct (pub_range_owner _ _ _ _ _ (HT _ _ H2) R2) as [L2 O2].
+  destruct (Nat.le_gt_cases e1 b2) as [|A]; [left; assumption|]. destruct (Nat.le_gt_cases e2 b1) as [|B]; [right; assumption|].
+  exfalso. set (j := Nat.max b1 b2). assert (J1 : b1 <= j < e1) by (unfold j; lia). assert (J2 : b2 <= j < e2) by (unfold j; lia).
+  destruct (O1 j J1) as (v1 & o1 & E1). destruct (O2 j J2) as (v2 & o2 & E2). rewrite E1 in E2. injection E2 as _ Et _. exact (N Et).
+Qed.
+
+(* the range a publish claims is made of indices nobody was given before in this epoch *)
+Lemma tt_publish_claims_fresh_range : forall progs s t th b e vals, Reach progs s -> misuse s = false ->
+  nth_error (threads s) t = Some th -> tpc th = PFill b e vals ->
+  e = b + length vals /\ e <= nei s /\ forall j, b <= j < e -> nth_error (items s) j = Some (nth (j - b) vals 0%Z).
+Proof.
+  intros progs s t th b e vals HR M Ht Hpc. destruct (tt_inv _ _ HR M) as [(G1 & _) HT]. destruct (HT _ _ Ht) as [_ Hp].
+  unfold pc_inv in Hp. rewrite Hpc in Hp. destruct Hp as (A & B & C). split; [exact B|]. split.
+  - assert (J : b <= e - 1 < e) by lia. pose proof (C _ J) as E. rewrite <- G1. assert (e - 1 < length (expected s)); [|lia].
+    apply nth_error_Some. rewrite E. discriminate.
+  - intros j Hj. unfold items. rewrite nth_error_map, (C j Hj). reflexivity.
+Qed.
+
+(* ---- after clear() the shared state is that of a new topic ---- *)
+Lemma tt_clear_is_new : forall s t th s', nth_error (threads s) t = Some th -> tpc th = Idle -> cur_op th = Some OClear ->
+  step s t = Some s' ->
+  nei s' = 0 /\ (forall j, stat s' j = INITIAL) /\ items s' = [] /\ closed_at s' = None /\ epoch s' = S (epoch s) /\
+  (misuse s' = false -> forall t' th', t' <> t -> nth_error (threads s) t' = Some th' -> tpc th' = Idle).
+Proof.
+  intros s t th s' Ht Hpc Hop Hs. unfold step in Hs. rewrite Ht in Hs. unfold step_thread in Hs. rewrite Hpc, Hop in Hs.
+  cbv zeta in Hs. injection Hs as <-. repeat split; try reflexivity.
+  - intro j. unfold stat, wordat. cbn [slots upd_thread set_threads]. rewrite get_map_reset. destruct (Nat.ltb _ _); reflexivity.
+  - intros M t' th' N Hn. cbn [misuse upd_thread set_threads] in M. apply orb_false_elim in M as [_ Mo]. apply negb_false_iff in Mo.
+    eapply others_idle_spec; eauto.
+Qed.
+
+(* ======================================================================================== *)
+(* No lost wake-up                                                                          *)
+(* ======================================================================================== *)
+Definition lw_local (th : thread) : Prop :=
+  match tpc th with
+  | CCas _ _ _ cur => (0 <= cur)%Z /\ status_of cur = INITIAL
+  | CWait _ _ _ v => (65536 <= v)%Z /\ status_of v = INITIAL
+  | PWakeLoad j e | PWakeCas j e _ | PWakeAll j e => j < e
+  | _ => True
+  end.
+Definition LW (s : st) : Prop :=
+  (forall j, (0 <= wordat s j)%Z) /\
+  (forall t th, nth_error (threads s) t = Some th -> lw_local th /\ forall i, blocked_on th = Some i -> lw_ok s i).
+Definition LInv (s : st) : Prop := misuse s = false -> LW s.
+
+Lemma existsb_nth : forall A (P : A -> bool) l, existsb P l = true <-> exists t x, nth_error l t = Some x /\ P x = true.
+Proof.
+  intros A P l. rewrite existsb_exists. split.
+  - intros (x & Hin & Hp). destruct (In_nth_error _ _ Hin) as [t Ht]. eauto.
+  - intros (t & x & Ht & Hp). exists x. split; [eapply nth_error_In; eauto | exact Hp].
+Qed.
+
+Lemma lw_step : forall s s' t th th1 i,
+  nth_error (threads s) t = Some th -> threads s' = set_nth t th1 (threads s) ->
+  (waiter_bit s i = true -> waiter_bit s' i = true) ->
+  (wit s i th = true -> wit s' i th1 = true) ->
+  (stat s i = INITIAL -> waiter_bit s i = true -> stat s' i = INITIAL \/ wit s' i th1 = true) ->
+  lw_ok s i -> lw_ok s' i.
+Proof.
+  intros s s' t th th1 i Ht Eth W T S [[Hw Hs]|Hf].
+  - destruct (S Hs Hw) as [Hs'|Hwit]; [left; auto|]. right. unfold wake_in_flight. apply existsb_nth. exists t, th1. split; [|exact Hwit].
+    rewrite Eth. eapply nth_error_set_nth_eq; eauto.
+  - right. unfold wake_in_flight in *. apply existsb_nth in Hf as (tw & w & Hn & Hp). apply existsb_nth.
+    destruct (Nat.eq_dec tw t) as [->|N].
+    + rewrite Ht in Hn. injection Hn as <-. exists t, th1. split; [rewrite Eth; eapply nth_error_set_nth_eq; eauto | apply T; exact Hp].
+    + exists tw, w. split; [rewrite Eth, nth_error_set_nth_neq; auto|]. unfold wit in *. apply andb_true_iff in Hp as [A B].
+      rewrite A. cbn [andb]. apply orb_true_iff in B as [B|B]; [rewrite B; reflexivity|]. rewrite (W B). apply orb_true_r.
+Qed.
+
+(* words unchanged *)
+Lemma lw_step_simple : forall s s' t th th1,
+  nth_error (threads s) t = Some th -> threads s' = set_nth t th1 (threads s) ->
+  (forall j, wordat s' j = wordat s j) ->
+  (forall i, wit s i th = true -> wit s i th1 = true) ->
+  forall i, lw_ok s i -> lw_ok s' i.
+Proof.
+  intros s s' t th th1 Ht Eth Hw T i. assert (Wb : forall j, waiter_bit s' j = waiter_bit s j) by (intro j; unfold waiter_bit; rewrite Hw; reflexivity).
+  assert (St : forall j, stat s' j = stat s j) by (intro j; unfold stat; rewrite Hw; reflexivity).
+  apply (lw_step s s' t th th1 i Ht Eth).
+  - rewrite Wb. auto.
+  - intro H. unfold wit. rewrite Wb. apply T. exact H.
+  - intros H _. left. rewrite St. exact H.
+Qed.
+
+Lemma lw_finish : forall s s' t th th1,
+  LW s -> nth_error (threads s) t = Some th -> threads s' = set_nth t th1 (threads s) ->
+  (forall j, (0 <= wordat s' j)%Z) -> lw_local th1 -> (forall i, blocked_on th1 = Some i -> lw_ok s' i) ->
+  (forall i, lw_ok s i -> lw_ok s' i) -> LW s'.
+Proof.
+  intros s s' t th th1 [Hw HT] Ht Eth Hw' Hl Hb Hpres. split; [exact Hw'|]. intros t' th' Hn. rewrite Eth in Hn.
+  apply nth_error_set_nth_inv in Hn as [[-> ->]|[N Hn]]; [split; assumption|].
+  destruct (HT t' th' Hn) as [A B]. split; [exact A|]. intros i Hi. apply Hpres, B, Hi.
+Qed.
+
+Lemma not_waker_wit : forall s s' i th th1, (forall j, will_wake (tpc th) j = false) -> wit s i th = true -> wit s' i th1 = true.
+Proof. intros s s' i th th1 H Hw. unfold wit in Hw. rewrite H in Hw. discriminate. Qed.
+
+Lemma lw_local_slow : forall th i e b cur, (0 <= cur)%Z -> lw_local (goto th (slow i e b cur)).
+Proof.
+  intros th i e b cur Hc. unfold slow, lw_local. destruct (wait_loop (status_of cur)) eqn:E1; [|exact I].
+  apply wait_loop_spec in E1. destruct (can_register cur) eqn:E2; cbn [tpc goto].
+  - split; assumption.
+  - split; [|assumption]. destruct (Z.lt_ge_cases cur 65536) as [H|H]; [|exact H]. apply can_register_spec in H. congruence.
+Qed.
+Lemma blocked_slow : forall th i e b cur j, blocked_on (goto th (slow i e b cur)) = Some j -> False.
+Proof. intros th i e b cur j. unfold slow, blocked_on. destruct (wait_loop _); [destruct (can_register _)|]; cbn; discriminate. Qed.
+
+Lemma lw_local_wake_next : forall th j e, j < e -> lw_local (wake_next th j e).
+Proof.
+  intros th j e H. unfold wake_next, lw_local. destruct (Nat.eqb_spec (S j) e); cbn [tpc goto finish_op]; [exact I | lia].
+Qed.
+Lemma blocked_wake_next : forall th j e i, blocked_on (wake_next th j e) = Some i -> False.
+Proof. intros th j e i. unfold wake_next, blocked_on. destruct (Nat.eqb _ _); cbn; discriminate. Qed.
+
+Lemma waiter_with_status : forall w x, (0 <= x < 65536)%Z -> Z.leb 65536 (with_status w x) = Z.leb 65536 w.
+Proof.
+  intros w x Hx. unfold with_status. pose proof (Z.div_mod w 65536 ltac:(lia)) as D. pose proof (Z.mod_pos_bound w 65536 ltac:(lia)) as B.
+  destruct (Z.leb_spec 65536 w), (Z.leb_spec 65536 (w / 65536 * 65536 + x)); try reflexivity; exfalso.
+  - assert (1 <= w / 65536)%Z by (apply Z.div_le_lower_bound; lia). lia.
+  - assert (w / 65536 < 1)%Z by (apply Z.div_lt_upper_bound; lia). lia.
+Qed.
+Lemma with_status_nonneg : forall w x, (0 <= w)%Z -> (0 <= x)%Z -> (0 <= with_status w x)%Z.
+Proof. intros w x Hw Hx. unfold with_status. assert (0 <= w / 65536)%Z by (apply Z.div_pos; lia). lia. Qed.
+Lemma status_of_nonneg : forall w, (0 <= status_of w < 65536)%Z.
+Proof. intro w. unfold status_of. apply Z.mod_pos_bound. lia. Qed.
+
+Lemma wordat_set_word : forall s i w j, wordat (set_slots s (set_word i w (slots s))) j = if Nat.eqb j i then w else wordat s j.
+Proof. intros. unfold wordat. cbn [slots set_slots]. rewrite get_set_word. destruct (Nat.eqb j i); reflexivity. Qed.
+
+Lemma will_wake_range : forall j e i, Nat.leb j i && Nat.ltb i e = true <-> j <= i < e.
+Proof. intros. rewrite andb_true_iff, Nat.leb_le, Nat.ltb_lt. tauto. Qed.
+
+
+Lemma lw_status_store : forall s t th th1 i x, LW s -> nth_error (threads s) t = Some th -> (0 <= x < 65536)%Z ->
+  (forall i', will_wake (tpc th) i' = will_wake (tpc th1) i') -> (forall i', at_wake_all (tpc th) i' = false) ->
+  will_wake (tpc th) i = true -> lw_local th1 -> blocked_on th1 = None ->
+  LW (upd_thread (set_slots s (set_word i (with_status (wordat s i) x) (slots s))) t th1).
+Proof.
+  intros s t th th1 i x HLW Hth Hx Hww Haw Hwi Hl Hb.
+  set (s1 := set_slots s (set_word i (with_status (wordat s i) x) (slots s))).
+  assert (Hw1 : forall j, wordat s1 j = if Nat.eqb j i then with_status (wordat s i) x else wordat s j) by (intro; apply wordat_set_word).
+  assert (Hwb : forall j, waiter_bit s1 j = waiter_bit s j).
+  { intro j. unfold waiter_bit. rewrite Hw1. destruct (Nat.eqb_spec j i) as [->|]; [apply waiter_with_status; exact Hx | reflexivity]. }
+  eapply (lw_finish s _ t th th1 HLW Hth); [reflexivity | | exact Hl | intros i' Hi'; congruence |].
+  - intro j. change (0 <= wordat s1 j)%Z. rewrite Hw1. destruct (Nat.eqb j i); [apply with_status_nonneg; [apply (proj1 HLW) | lia] | apply (proj1 HLW)].
+  - intro i'. eapply (lw_step s _ t th th1 i' Hth); [reflexivity | | |].
+    + change (waiter_bit s i' = true -> waiter_bit s1 i' = true). rewrite Hwb. auto.
+    + change (wit s i' th = true -> wit s1 i' th1 = true). unfold wit. rewrite Hwb, <- Hww, Haw. cbn [orb].
+      intro H. apply andb_true_iff in H as [A B]. rewrite A, B. cbn [andb]. apply orb_true_r.
+    + change (stat s i' = INITIAL -> waiter_bit s i' = true -> stat s1 i' = INITIAL \/ wit s1 i' th1 = true).
+      intros Hs Hwt. destruct (Nat.eq_dec i' i) as [->|N].
+      * right. unfold wit. rewrite Hwb, <- Hww, Hwi, Hwt. cbn [andb]. apply orb_true_r.
+      * left. unfold stat. rewrite Hw1. apply Nat.eqb_neq in N. rewrite N. exact Hs.
+Qed.
+
+Lemma wit_witness : forall s t th i, nth_error (threads s) t = Some th -> wit s i th = true -> lw_ok s i.
+Proof. intros s t th i Ht Hw. right. unfold wake_in_flight. apply existsb_nth. eauto. Qed.
+
+Ltac lw_open s HI HL M HLW HG HT :=
+  intro M; change (misuse s = false) in M; pose proof (HL M) as HLW; destruct (HI M) as [HG HT].
+Ltac nw Hpc := let j := fresh in intro j; rewrite Hpc; reflexivity.
+(* shared words untouched, stepping thread is not a waker before the step *)
+Ltac lw_simple s t th th1 HLW Hth Hpc :=
+  eapply (lw_finish s _ t th th1 HLW Hth);
+  [ reflexivity | exact (proj1 HLW) | | |
+    eapply (lw_step_simple s _ t th th1 Hth); [reflexivity | intro; reflexivity | let i := fresh in intro i; apply not_waker_wit; nw Hpc ] ].
+
+Lemma lw_start_consume : forall s t th k, LInv s -> nth_error (threads s) t = Some th -> tpc th = Idle -> LInv (start_consume s t th k).
+Proof.
+  intros s t th k HL Hth Hpc. unfold start_consume. cbv zeta.
+  match goal with |- context [upd_thread ?x t _] => set (s1 := x) end.
+  assert (Hgoal : forall th1, lw_local th1 -> (forall i, blocked_on th1 = Some i -> False) -> LInv (upd_thread s1 t th1)).
+  { intros th1 Hl Hb M. change (misuse s || (Nat.eqb k 0 || negb (Nat.eqb (cepoch th) (epoch s))) = false) in M.
+    apply orb_false_elim in M as [M _]. pose proof (HL M) as HLW.
+    eapply (lw_finish s _ t th th1 HLW Hth); [reflexivity | exact (proj1 HLW) | exact Hl | intros i Hi; destruct (Hb i Hi) |].
+    eapply (lw_step_simple s _ t th th1 Hth); [reflexivity | intro; reflexivity |]. intro i. apply not_waker_wit. nw Hpc. }
+  destruct (Nat.eqb (cursor th) _); apply Hgoal; try exact I; intros i; discriminate.
+Qed.
+
+Lemma lw_step_inv : forall s t s', Inv s -> LInv s -> step s t = Some s' -> LInv s'.
+Proof.
+  intros s t s' HI HL Hs. unfold step in Hs. destruct (nth_error (threads s) t) as [th|] eqn:Hth; [|discriminate].
+  unfold step_thread in Hs. destruct (tpc th) eqn:Hpc.
+  - (* Idle *)
+    destruct (cur_op th) as [o|] eqn:Hop; [|discriminate]. destruct o.
+    + (* OPub *)
+      cbv zeta in Hs.
+      match type of Hs with context [upd_thread ?x t _] => set (s1 := x) in Hs end.
+      assert (Hgoal : forall th1, lw_local th1 -> (forall i, blocked_on th1 = Some i -> False) -> LInv (upd_thread s1 t th1)).
+      { intros th1 Hl Hb M. change (misuse s || match closed_at s with Some _ => true | None => false end = false) in M.
+        apply orb_false_elim in M as [M _]. pose proof (HL M) as HLW.
+        eapply (lw_finish s _ t th th1 HLW Hth); [reflexivity | exact (proj1 HLW) | exact Hl | intros i Hi; destruct (Hb i Hi) |].
+        eapply (lw_step_simple s _ t th th1 Hth); [reflexivity | intro; reflexivity |]. intro i. apply not_waker_wit. nw Hpc. }
+      destruct (Nat.eqb (nei s) _); injection Hs as <-; apply Hgoal; try exact I; intros i; discriminate.
+    + injection Hs as <-. apply lw_start_consume; auto.
+    + injection Hs as <-. apply lw_start_consume; auto.
+    + (* OClose *)
+      cbv zeta in Hs. injection Hs as <-. lw_open s HI HL M HLW HG HT.
+      match goal with |- LW (upd_thread ?x t ?y) => set (s1 := x); set (th1 := y) end.
+      eapply (lw_finish s _ t th th1 HLW Hth); [reflexivity | exact (proj1 HLW) | exact I | intros i; discriminate |].
+      eapply (lw_step_simple s _ t th th1 Hth); [reflexivity | intro; reflexivity |]. intro i. apply not_waker_wit. nw Hpc.
+    + (* OClear *)
+      cbv zeta in Hs. injection Hs as <-. intro M. change (misuse s || negb (others_idle t (threads s)) = false) in M.
+      apply orb_false_elim in M as [M Mo]. apply negb_false_iff in Mo. destruct consts_distinct as (_ & _ & _ & R1 & _).
+      split.
+      * intro j. unfold wordat. cbn [slots upd_thread set_threads]. rewrite get_map_reset. destruct (Nat.ltb _ _); cbn [word reset_slot slot0]; rewrite ?reset_word_spec; lia.
+      * intros t' th' Hn. cbn [threads upd_thread set_threads] in Hn. apply nth_error_set_nth_inv in Hn as [[-> ->]|[N Hn]].
+        -- split; [exact I | intros i; discriminate].
+        -- pose proof (others_idle_spec _ _ _ _ Mo N Hn) as Hidle. unfold lw_local, blocked_on. rewrite Hidle. split; [exact I | intros i; discriminate].
+    + (* OSub *)
+      injection Hs as <-. lw_open s HI HL M HLW HG HT.
+      match goal with |- LW (upd_thread s t ?y) => set (th1 := y) end.
+      lw_simple s t th th1 HLW Hth Hpc; [exact I | intros i; discriminate].
+    + (* OBarrier *)
+      destruct (barrier_open s th); [|discriminate]. injection Hs as <-. lw_open s HI HL M HLW HG HT.
+      match goal with |- LW (upd_thread s t ?y) => set (th1 := y) end.
+      lw_simple s t th th1 HLW Hth Hpc; [exact I | intros i; discriminate].
+  - (* PFill *)
+    injection Hs as <-. lw_open s HI HL M HLW HG HT.
+    eapply (lw_finish s _ t th (goto th (PStore b e b)) HLW Hth); [reflexivity | | exact I | intros i; discriminate |].
+    + intro j. unfold wordat. cbn [slots upd_thread set_threads set_slots]. rewrite word_get_fill. apply (proj1 HLW).
+    + eapply (lw_step_simple s _ t th (goto th (PStore b e b)) Hth); [reflexivity | |].
+      * intro j. unfold wordat. cbn [slots upd_thread set_threads set_slots]. apply word_get_fill.
+      * intro i. apply not_waker_wit. nw Hpc.
+  - (* PStore *)
+    cbv zeta in Hs. destruct consts_distinct as (_ & _ & _ & _ & R2 & _).
+    assert (Hgoal : forall th1, (forall i', will_wake (tpc th) i' = will_wake (tpc th1) i') -> (b <= i < e -> lw_local th1) ->
+       blocked_on th1 = None ->
+       LInv (upd_thread (set_slots s (set_word i (with_status (wordat s i) published_status) (slots s))) t th1)).
+    { intros th1 Hww Hl Hb. lw_open s HI HL M HLW HG HT. destruct (HT t th Hth) as [_ Hp]. unfold pc_inv in Hp. rewrite Hpc in Hp.
+      destruct Hp as [Hbe _]. apply (lw_status_store s t th th1 i published_status HLW Hth).
+      - rewrite published_status_spec. exact R2.
+      - exact Hww.
+      - intro i'. rewrite Hpc. reflexivity.
+      - rewrite Hpc. cbn [will_wake]. apply will_wake_range. lia.
+      - apply Hl. exact Hbe.
+      - exact Hb. }
+    destruct (Nat.eqb_spec (S i) e); injection Hs as <-; apply Hgoal; try reflexivity;
+      try (intro i'; rewrite Hpc; reflexivity); intro Hbe; unfold lw_local; cbn [tpc goto]; try exact I; lia.
+  - (* PWakeLoad *)
+    cbv zeta in Hs. destruct (wake_fast (wordat s i)) eqn:Ef; injection Hs as <-; lw_open s HI HL M HLW HG HT;
+      destruct (proj2 HLW t th Hth) as [Hl _]; unfold lw_local in Hl; rewrite Hpc in Hl.
+    + eapply (lw_finish s _ t th (wake_next th i e) HLW Hth); [reflexivity | exact (proj1 HLW) | apply lw_local_wake_next; exact Hl
+                                                                | intros j Hj; destruct (blocked_wake_next _ _ _ _ Hj) |].
+      eapply (lw_step_simple s _ t th (wake_next th i e) Hth); [reflexivity | intro; reflexivity |].
+      intros i' Hw. unfold wit in *. rewrite Hpc in Hw. cbn [will_wake at_wake_all orb] in Hw. apply andb_true_iff in Hw as [A B].
+      apply will_wake_range in A. destruct (Nat.eq_dec i' i) as [->|N].
+      * exfalso. apply wake_fast_spec in Ef. unfold waiter_bit in B. apply Z.leb_le in B. lia.
+      * unfold wake_next. destruct (Nat.eqb_spec (S i) e); [lia|]. cbn [tpc goto will_wake at_wake_all orb]. rewrite B.
+        rewrite andb_true_r. apply will_wake_range. lia.
+    + eapply (lw_finish s _ t th (goto th (PWakeCas i e (wordat s i))) HLW Hth); [reflexivity | exact (proj1 HLW) | exact Hl | intros j; discriminate |].
+      eapply (lw_step_simple s _ t th (goto th (PWakeCas i e (wordat s i))) Hth); [reflexivity | intro; reflexivity |].
+      intros i' Hw. unfold wit in *. rewrite Hpc in Hw. cbn [tpc goto will_wake at_wake_all orb] in *. apply andb_true_iff in Hw as [A B].
+      rewrite A, B. cbn [andb]. apply orb_true_r.
+  - (* PWakeCas *)
+    cbv zeta in Hs. injection Hs as <-. set (th1 := goto th (PWakeAll i e)).
+    assert (Hwt : forall i', wit s i' th = true -> forall s', waiter_bit s' i' = waiter_bit s i' -> wit s' i' th1 = true).
+    { intros i' Hw s' E. unfold wit in *. rewrite Hpc in Hw. unfold th1. cbn [tpc goto will_wake at_wake_all] in *. rewrite E. exact Hw. }
+    destruct (Z.eqb_spec (wordat s i) cur) as [Ew|Ew]; lw_open s HI HL M HLW HG HT;
+      destruct (proj2 HLW t th Hth) as [Hl _]; unfold lw_local in Hl; rewrite Hpc in Hl.
+    + set (s1 := set_slots s (set_word i (status_of cur) (slots s))).
+      assert (Hw1 : forall j, wordat s1 j = if Nat.eqb j i then status_of cur else wordat s j) by (intro; apply wordat_set_word).
+      eapply (lw_finish s _ t th th1 HLW Hth); [reflexivity | | exact Hl | intros j; discriminate |].
+      * intro j. change (0 <= wordat s1 j)%Z. rewrite Hw1. destruct (Nat.eqb j i); [apply status_of_nonneg | apply (proj1 HLW)].
+      * intros i' Hok. destruct (Nat.eq_dec i' i) as [->|N].
+        -- apply (wit_witness _ t th1); [cbn [threads upd_thread set_threads]; eapply nth_error_set_nth_eq; eauto|].
+           unfold wit, th1. cbn [tpc goto will_wake at_wake_all]. rewrite Nat.eqb_refl. cbn [orb]. rewrite andb_true_r. apply will_wake_range. lia.
+        -- apply Nat.eqb_neq in N. revert Hok. eapply (lw_step s _ t th th1 i' Hth); [reflexivity | | |].
+           ++ change (waiter_bit s i' = true -> waiter_bit s1 i' = true). unfold waiter_bit. rewrite Hw1, N. auto.
+           ++ intro Hw. apply (Hwt i' Hw). unfold waiter_bit. change (wordat (upd_thread s1 t th1) i') with (wordat s1 i'). rewrite Hw1, N. reflexivity.
+           ++ intros Hs _. left. unfold stat. change (wordat (upd_thread s1 t th1) i') with (wordat s1 i'). rewrite Hw1, N. exact Hs.
+    + eapply (lw_finish s _ t th th1 HLW Hth); [reflexivity | exact (proj1 HLW) | exact Hl | intros j; discriminate |].
+      eapply (lw_step_simple s _ t th th1 Hth); [reflexivity | intro; reflexivity |]. intros i' Hw. apply (Hwt i' Hw). reflexivity.
+  - (* PWakeAll *)
+    injection Hs as <-. lw_open s HI HL M HLW HG HT.
+    destruct (proj2 HLW t th Hth) as [Hl _]; unfold lw_local in Hl; rewrite Hpc in Hl.
+    set (th1 := wake_next th i e).
+    split; [exact (proj1 HLW)|].
+    intros t' th' Hn. cbn [threads upd_thread set_threads] in Hn.
+    apply nth_error_set_nth_inv in Hn as [[-> ->]|[N Hn]].
+    + split; [apply lw_local_wake_next; exact Hl | intros j Hj; destruct (blocked_wake_next _ _ _ _ Hj)].
+    + rewrite nth_error_map in Hn. destruct (nth_error (threads s) t') as [th0|] eqn:E0; [|discriminate]. injection Hn as <-.
+      destruct (proj2 HLW t' th0 E0) as [Hl0 Hb0]. split.
+      * unfold wake_thread. destruct (tpc th0) eqn:P0; try exact Hl0. destruct (Nat.eqb _ _); [|exact Hl0].
+        unfold lw_local. cbn [tpc goto]. exact I.
+      * intros i' Hi'.
+        assert (Hb : blocked_on th0 = Some i' /\ i' <> i).
+        { unfold wake_thread in Hi'. unfold blocked_on in *. destruct (tpc th0) eqn:P0; try (rewrite P0 in Hi'; discriminate).
+          destruct (Nat.eqb_spec i0 i) as [->|Ne]; [cbn [tpc goto] in Hi'; discriminate|]. rewrite P0 in Hi'. injection Hi' as <-. auto. }
+        destruct Hb as [Hb Ni]. destruct (Hb0 i' Hb) as [[A B]|F]; [left; split; [exact A | exact B]|].
+        unfold wake_in_flight in F. apply existsb_nth in F as (tw & w & Hw & Hp).
+        destruct (Nat.eq_dec tw t) as [->|Nt].
+        -- rewrite Hth in Hw. injection Hw as <-. apply (wit_witness _ t th1).
+           { cbn [threads upd_thread set_threads]. eapply nth_error_set_nth_eq. rewrite nth_error_map, Hth. reflexivity. }
+           unfold wit in *. rewrite Hpc in Hp. cbn [will_wake at_wake_all] in Hp. apply andb_true_iff in Hp as [R W].
+           apply will_wake_range in R. apply Nat.eqb_neq in Ni. rewrite Nat.eqb_sym, Ni in W. cbn [orb] in W. apply Nat.eqb_neq in Ni.
+           unfold th1, wake_next. destruct (Nat.eqb_spec (S i) e); [lia|]. cbn [tpc goto will_wake at_wake_all orb].
+           change (waiter_bit (upd_thread (set_threads s (map (wake_thread i) (threads s))) t (goto th (PWakeLoad (S i) e))) i') with (waiter_bit s i').
+           rewrite W, andb_true_r. apply will_wake_range. lia.
+        -- apply (wit_witness _ tw w); [|exact Hp].
+           cbn [threads upd_thread set_threads]. rewrite nth_error_set_nth_neq by exact Nt. rewrite nth_error_map, Hw. cbn [option_map]. f_equal.
+           unfold wit in Hp. apply andb_true_iff in Hp as [R _]. unfold wake_thread. destruct (tpc w); try reflexivity. discriminate R.
+  - (* XStore *)
+    cbv zeta in Hs. injection Hs as <-. destruct consts_distinct as (_ & _ & _ & _ & _ & R3).
+    lw_open s HI HL M HLW HG HT. apply (lw_status_store s t th (goto th (PWakeLoad i (S i))) i closed_status HLW Hth).
+    + rewrite closed_status_spec. exact R3.
+    + intro i'. rewrite Hpc. cbn [will_wake tpc goto]. destruct (Nat.eqb_spec i i') as [->|N].
+      * symmetry. apply will_wake_range. lia.
+      * symmetry. apply not_true_iff_false. rewrite will_wake_range. lia.
+    + intro i'. rewrite Hpc. reflexivity.
+    + rewrite Hpc. cbn [will_wake]. apply Nat.eqb_refl.
+    + unfold lw_local. cbn [tpc goto]. lia.
+    + reflexivity.
+  - (* CClosed *)
+    cbv zeta in Hs. destruct (Z.eqb _ _); injection Hs as <-; lw_open s HI HL M HLW HG HT;
+      match goal with |- LW (upd_thread s t ?y) => set (th1 := y) end;
+      lw_simple s t th th1 HLW Hth Hpc; [exact I | intros j; discriminate | exact I | intros j; discriminate].
+  - (* CPub *)
+    cbv zeta in Hs. destruct (Z.eqb _ _); [destruct (Nat.eqb _ _)|]; injection Hs as <-; lw_open s HI HL M HLW HG HT;
+      match goal with |- LW (upd_thread s t ?y) => set (th1 := y) end;
+      lw_simple s t th th1 HLW Hth Hpc; try exact I; intros j; discriminate.
+  - (* CReady *)
+    cbv zeta in Hs. destruct (ready_fast _); injection Hs as <-; lw_open s HI HL M HLW HG HT;
+      match goal with |- LW (upd_thread s t ?y) => set (th1 := y) end;
+      lw_simple s t th th1 HLW Hth Hpc.
+    + exact I.
+    + intros j; discriminate.
+    + apply lw_local_slow. apply (proj1 HLW).
+    + intros j Hj. destruct (blocked_slow _ _ _ _ _ _ Hj).
+  - (* CCas *)
+    destruct (Z.eqb_spec (wordat s i) cur) as [Ew|Ew]; injection Hs as <-; lw_open s HI HL M HLW HG HT.
+    + destruct (proj2 HLW t th Hth) as [Hl _]. unfold lw_local in Hl. rewrite Hpc in Hl. destruct Hl as [A B].
+      set (s1 := set_slots s (set_word i (wait_word cur) (slots s))). set (th1 := goto th (CWait i e b (wait_word cur))).
+      assert (Hw1 : forall j, wordat s1 j = if Nat.eqb j i then wait_word cur else wordat s j) by (intro; apply wordat_set_word).
+      eapply (lw_finish s _ t th th1 HLW Hth); [reflexivity | | | intros j; discriminate |].
+      * intro j. change (0 <= wordat s1 j)%Z. rewrite Hw1. destruct (Nat.eqb j i); [rewrite wait_word_spec; lia | apply (proj1 HLW)].
+      * unfold lw_local, th1. cbn [tpc goto]. split; [rewrite wait_word_spec; lia | rewrite status_of_wait_word; exact B].
+      * intro i'. eapply (lw_step s _ t th th1 i' Hth); [reflexivity | | |].
+        -- change (waiter_bit s i' = true -> waiter_bit s1 i' = true). unfold waiter_bit. rewrite Hw1.
+           destruct (Nat.eqb i' i); [intros _; apply Z.leb_le; rewrite wait_word_spec; lia | auto].
+        -- apply not_waker_wit. nw Hpc.
+        -- change (stat s i' = INITIAL -> waiter_bit s i' = true -> stat s1 i' = INITIAL \/ wit s1 i' th1 = true).
+           intros Hs _. left. unfold stat. rewrite Hw1. destruct (Nat.eqb_spec i' i) as [->|]; [|exact Hs].
+           rewrite status_of_wait_word, <- Ew. exact Hs.
+    + match goal with |- LW (upd_thread s t ?y) => set (th1 := y) end. lw_simple s t th th1 HLW Hth Hpc; [exact I | intros j; discriminate].
+  - (* CWait *)
+    destruct (Z.eqb_spec (wordat s i) v) as [Ew|Ew]; injection Hs as <-; lw_open s HI HL M HLW HG HT;
+      match goal with |- LW (upd_thread s t ?y) => set (th1 := y) end; lw_simple s t th th1 HLW Hth Hpc;
+      try exact I; try (intros j; discriminate).
+    intros j Hj. injection Hj as <-. left. destruct (proj2 HLW t th Hth) as [Hl _]. unfold lw_local in Hl. rewrite Hpc in Hl.
+    destruct Hl as [A B]. split.
+    + unfold waiter_bit. change (wordat (upd_thread s t th1) i) with (wordat s i). rewrite Ew. apply Z.leb_le. exact A.
+    + unfold stat. change (wordat (upd_thread s t th1) i) with (wordat s i). rewrite Ew. exact B.
+  - discriminate.
+  - (* CReload *)
+    injection Hs as <-. lw_open s HI HL M HLW HG HT.
+    match goal with |- LW (upd_thread s t ?y) => set (th1 := y) end.
+    lw_simple s t th th1 HLW Hth Hpc; [apply lw_local_slow; apply (proj1 HLW) | intros j Hj; destruct (blocked_slow _ _ _ _ _ _ Hj)].
+  - (* CHand *)
+    cbv zeta in Hs. injection Hs as <-. lw_open s HI HL M HLW HG HT.
+    match goal with |- LW (upd_thread s t ?y) => set (th1 := y) end.
+    lw_simple s t th th1 HLW Hth Hpc; [exact I | intros j; discriminate].
+Qed.
+
+Lemma linv_init : forall progs, LInv (init progs).
+Proof.
+  intros progs _. destruct consts_distinct as (_ & _ & _ & R1 & _). split.
+  - intro j. unfold wordat, init. cbn [slots]. rewrite get_nil. cbn [word slot0]. lia.
+  - intros t th Hn. cbn [threads init] in Hn. rewrite nth_error_map in Hn. destruct (nth_error progs t); [|discriminate].
+    injection Hn as <-. split; [exact I | intros i; discriminate].
+Qed.
+
+Lemma tt_linv : forall progs s, Reach progs s -> Inv s /\ LInv s.
+Proof.
+  intros progs s H. apply (inv_reachable st step (fun s => Inv s /\ LInv s) (init progs)); [| |exact H].
+  - split; [apply inv_init | apply linv_init].
+  - intros s0 t s1 [A B] Hs. split; [eapply step_inv; eauto | eapply lw_step_inv; eauto].
+Qed.
+
+(* ---- no lost wake-up ---- *)
+Lemma tt_no_lost_wakeup : forall progs s th i, Reach progs s -> misuse s = false -> In th (threads s) ->
+  blocked_on th = Some i -> lw_ok s i.
+Proof.
+  intros progs s th i HR M Hin Hb. destruct (tt_linv _ _ HR) as [_ HL]. destruct (HL M) as [_ HT].
+  destruct (In_nth_error _ _ Hin) as [t Ht]. destruct (HT t th Ht) as [_ B]. apply B. exact Hb.
+Qed.
+
+(* with no publisher / closer that still has to wake slot i, a parked consumer sits on an unpublished slot *)
+Lemma tt_parked_only_on_unpublished : forall progs s th i, Reach progs s -> misuse s = false -> In th (threads s) ->
+  blocked_on th = Some i -> (forall w, In w (threads s) -> will_wake (tpc w) i = false) -> stat s i = INITIAL /\ waiter_bit s i = true.
+Proof.
+  intros progs s th i HR M Hin Hb Hnw. destruct (tt_no_lost_wakeup _ _ _ _ HR M Hin Hb) as [[A B]|F]; [auto|].
+  exfalso. unfold wake_in_flight in F. apply existsb_exists in F as (w & Hw & Hp). unfold wit in Hp. rewrite (Hnw w Hw) in Hp. discriminate.
+Qed.
+
+(* the futex word never goes negative and a consumer only parks with the waiter bit in its expected value *)
+Lemma tt_wait_value_has_waiter_bit : forall progs s th i e b v, Reach progs s -> misuse s = false -> In th (threads s) ->
+  tpc th = CWait i e b v -> (65536 <= v)%Z /\ status_of v = INITIAL.
+Proof.
+  intros progs s th i e b v HR M Hin Hpc. destruct (tt_linv _ _ HR) as [_ HL]. destruct (HL M) as [_ HT].
+  destruct (In_nth_error _ _ Hin) as [t Ht]. destruct (HT t th Ht) as [A _]. unfold lw_local in A. rewrite Hpc in A. exact A.
+Qed.
+
+Lemma tt_reach_example :
+  exists s, Reach [[OPub [7%Z; 8%Z]; OClose]; [OLoop 1]; [OLoop 3]] s /\ misuse s = false /\
+            existsb parked (threads s) = true /\ wake_in_flight s 0 = true.
+Proof.
+  eexists. split; [exists [1; 1; 1; 1; 1; 1; 0; 0; 0]; reflexivity|]. vm_compute. repeat split; reflexivity.
+Qed.
+Lemma tt_end_example :
+  exists s, Reach [[OPub [7%Z; 8%Z]; OClose]; [OLoop 3]] s /\ misuse s = false /\
+            map ended (threads s) = [false; true] /\ map received (threads s) = [[]; [7%Z; 8%Z]].
+Proof.
+  eexists. split; [exists (repeat 0 12 ++ repeat 1 20); reflexivity|]. vm_compute. repeat split; reflexivity.
+Qed.
